@@ -792,6 +792,92 @@ def r13l(ctx):
         raise AnalysisError(f"R13l: only {n} insert helper(s) found")
 
 
+_FIXTURE_M = '''
+class Document:
+    def __init__(self):
+        self.__done = False
+        self.__parts = {}
+    def add_page_break_style(self):
+        if self.__done:
+            return
+        self.__done = True
+        self.insert_style(1)
+    def add_other(self):
+        if not self._ready:
+            self._ready = True
+            self.insert_style(2)
+    def get_part(self, path):
+        if path in self.__parts:
+            return self.__parts[path]
+        self.__parts[path] = 1
+        return 1
+    def plain(self, flag):
+        if flag:
+            return
+        self.insert_style(3)
+'''
+
+
+def _latched_methods(cls_node: ast.ClassDef):
+    """methods that skip their work on a flag of the object which they set themselves: (function, test, store)"""
+    out = []
+    for fn in cls_node.body:
+        if not isinstance(fn, ast.FunctionDef) or fn.name == "__init__":
+            continue
+        latches = {}
+        for a in walk_no_nested(fn):
+            if isinstance(a, ast.Assign) and isinstance(a.value, ast.Constant) and isinstance(a.value.value, bool):
+                for t in a.targets:
+                    if isinstance(t, ast.Attribute) and isinstance(t.value, ast.Name) and t.value.id == "self":
+                        latches[t.attr] = a
+        if not latches:
+            continue
+        for n in walk_no_nested(fn):
+            if isinstance(n, (ast.If, ast.While)):
+                reads = {x.attr for x in ast.walk(n.test) if isinstance(x, ast.Attribute) and isinstance(x.value, ast.Name) and x.value.id == "self"}
+                reads |= {x.args[1].value for x in ast.walk(n.test) if isinstance(x, ast.Call) and isinstance(x.func, ast.Name) and x.func.id == "getattr" and len(x.args) >= 2
+                          and isinstance(x.args[0], ast.Name) and x.args[0].id == "self" and isinstance(x.args[1], ast.Constant) and isinstance(x.args[1].value, str)}
+                reads &= set(latches)
+                # the flag decides, on its own, whether the body of the method runs: nothing else is consulted
+                pure = {x.id for x in ast.walk(n.test) if isinstance(x, ast.Name)} <= {"self", "getattr"} and not any(isinstance(x, (ast.Compare, ast.Subscript)) for x in ast.walk(n.test))
+                if reads and pure:
+                    out.append((fn, n.test, latches[sorted(reads)[0]]))
+    return out
+
+
+def r13m(ctx):
+    """A helper that installs a style does it every time it is asked.
+
+    `add_page_break_style`, `insert_style`, `merge_styles_from`, `delete_styles` can be called in any order, any number of times; the styles of
+    the document change in between.  A helper that remembers on the Document (or on a part) that it "has done its work already" and returns
+    at once from then on leaves the style missing after a `delete_styles()`, or keeps a same-named style with other properties in place —
+    and the flag is deep-copied by clone.  Today no method of Document or of an XmlPart class is latched.  Rule (expected count 0, fixture
+    evaluated on every run): no method of those classes sets a boolean attribute of the object that it also tests, alone, to decide whether
+    its body runs.
+    """
+    repo = ctx.repo
+    ctx.rule("R13m", "no method of Document or of an XmlPart class is latched by a done-flag kept on the object", floor=6)
+    tree = ast.parse(_FIXTURE_M)
+    got = sorted(fn.name for fn, _, _ in _latched_methods(tree.body[0]))
+    if got != ["add_other", "add_page_break_style"]:
+        raise AnalysisError(f"R13m fixture: detector broken: {got}")
+    base = repo.cls("XmlPart")
+    for c in repo.all_classes():
+        if c.name != "Document" and base not in c.mro:
+            continue
+        bad = {id(fn): (fn, t, st) for fn, t, st in _latched_methods(c.node)}
+        for name, fs in sorted(c.methods.items()):
+            for f in fs:
+                if f.cls is not c or f.kind == "nested":
+                    continue
+                b = bad.get(id(f.node))
+                ctx.instance("R13m", f"{f.file}:{f.ident}", "not latched", ok=b is None, nontrivial=b is not None or name.startswith(("add_", "insert_", "merge_", "set_", "delete_")), line=f.node.lineno)
+                if b:
+                    ctx.report("R13m", f, b[1], f"latch {norm(b[1], 30)} / {norm(b[2], 30)}",
+                               f"{f.ident} skips its work when `{norm(b[1], 30)}` and sets that flag itself (`{norm(b[2], 30)}`): after the first call it does nothing for the life of the "
+                               f"object, whatever happened to the styles in between (deleted, replaced by a same-named style, merged from another document)")
+
+
 def run(ctx):
     r13ab(ctx)
     r13c(ctx)
@@ -804,6 +890,7 @@ def run(ctx):
     r13j(ctx)
     r13k(ctx)
     r13l(ctx)
+    r13m(ctx)
 
 
 from ..selftest import Seed, unparse_seed  # noqa: E402
@@ -811,6 +898,9 @@ from ..selftest import Seed, unparse_seed  # noqa: E402
 _DOC = "src/odfdo/document.py"
 _ST = "src/odfdo/styles.py"
 SEEDS = [
+    Seed("add_page_break_style runs once per Document object", "fault", _DOC,
+         "        if existing := self.get_style(  # noqa: SIM102\n            family=\"paragraph\",\n            name_or_element=\"odfdopagebreak\",",
+         "        if getattr(self, \"_pb_done\", False):\n            return\n        self._pb_done = True\n        if existing := self.get_style(  # noqa: SIM102\n            family=\"paragraph\",\n            name_or_element=\"odfdopagebreak\",", "R13m"),
     Seed("default-style helper looks the old default up only when a name was given", "fault", _DOC,
          "        if name:\n            style.del_attribute(\"style:name\")\n        existing = self.styles.get_style(family)",
          "        if name:\n            style.del_attribute(\"style:name\")\n            existing = self.styles.get_style(family)\n        else:\n            existing = None", "R13l"),
